@@ -4,8 +4,9 @@ Per run: (1) the Coq theorems of coq/Props/C09.v, (2) the real code driven by ha
 through dag.LoadYAML and Parsed.Next; schedule values; daemon histories against the real scheduler + watcher
 with a recording client), (3) correspondence = the Coq models Cron / Daemon evaluated on the same cases,
 (4) MONITOR = the property itself, evaluated by tools/props/cron_lib.py (independent python cron matcher) on the
-calls the real daemon issued.  Genuine defects of the pinned tree (F9a, F9b, F13a, F13b) are classified narrowly
-and matched against known_findings.d/C09.json."""
+calls the real daemon issued.  Genuine defects of the tree (F9a, F9b) are classified narrowly and matched against
+known_findings.d/C09.json; F13a / F13b (loader panics killing the daemon) are repaired in /repo - the monitor
+reports any recurrence as a violation."""
 import json
 import os
 from concurrent.futures import ThreadPoolExecutor
